@@ -385,7 +385,13 @@ class Generator:
             edits.append(Edit(toks[j0].start, toks[j0].start, " ".join(pre_attrs) + "\n", None, order=-1))
         body_edits = []
         if mode == "verify":
-            body_edits = self.body_edits(it, fs, bo, bc)
+            try:
+                body_edits = self.body_edits(it, fs, bo, bc)
+            except GenError as e:
+                # the body changed under the contract's anchors: keep the contract, give up on the body (decided elsewhere or undecided)
+                self.report.setdefault("lost_anchor", []).append({"fn": it.path, "reason": "lost anchor: " + str(e)[:200]})
+                mode = "assume"
+                edits.append(Edit(toks[j0].start, toks[j0].start, "#[verifier::external_body]\n", None, order=-2))
         # emit header
         hdr_edits = [e for e in edits]
         apply_edits(out, src, it.start, contract_pos, hdr_edits)
